@@ -188,10 +188,31 @@ func ruleClusterID(c *Ctx) {
 		"a new id is generated only when reading the key succeeded and found nothing")
 }
 
+// rulePutConfigIdentity: a cluster configuration is stored only if the id *it
+// carries* is this cluster's id.
+func rulePutConfigIdentity(c *Ctx) {
+	P := c.P
+	rule := c.Prop + "/cluster-id"
+	fn := P.Method("server/cluster", "RaftCluster", "PutConfig")
+	put := F(P.Method("server/cluster", "RaftCluster", "putMetaLocked"))
+	getID := F(P.Method("github.com/pingcap/kvproto/pkg/metapb", "Cluster", "GetId"))
+	cid := P.Field("server/cluster", "RaftCluster", "clusterID")
+	var param ssa.Value
+	if len(fn.Params) >= 2 {
+		param = fn.Params[1]
+	}
+	ofParam := func(v ssa.Value) bool {
+		cl, _ := callOf(v)
+		return cl != nil && getID.Match(cl.Common()) && param != nil && sameVal(callRecv(cl.Common()), param)
+	}
+	c.need(rule, fn, "call putMetaLocked", instrCallMatcher(put), []Ev{guardRel("meta.GetId() == clusterID", "==", ofParam, loadOfField(cid))}, all,
+		"the configuration is stored only when the id carried by the *submitted* configuration equals this cluster's id")
+}
+
 func init() {
 	register("C20", "A cluster is bootstrapped exactly once and keeps one identity", func(c *Ctx) {
 		c.Group("C20/bootstrap-txn", "the four bootstrap writes are the Then of one transaction guarded by CreateRevision(clusterRoot)==0; start/response/storage only after it was applied; payload validated first and taken from the request", func() { ruleBootstrapTxn(c) })
-		c.Group("C20/cluster-id", "cluster id: create-if-absent put with Else(Get); generated id returned only if applied; no other writer; assigned once at start", func() { ruleClusterID(c) })
+		c.Group("C20/cluster-id", "cluster id: create-if-absent put with Else(Get); generated id returned only if applied; no other writer; assigned once at start", func() { ruleClusterID(c); rulePutConfigIdentity(c) })
 		c.Group("C20/not-leader-refused", "(shared with C03) requests carrying another cluster id are refused (validateRequest, Tso, Sync)", func() { ruleHandlersValidate(c) })
 	})
 }
